@@ -285,8 +285,8 @@ def compact_family(rep, rule, prog, cg):
             sl, sw = fam.sig(l), fam.sig(w)
             if wlabel:
                 # the zero-copy branch of the linked writer (threshold test, insert, window bookkeeping) has no counterpart in a length pass
-                sw = [t for t in sw if not (t[0] == 'cmp' and len(t) > 3 and t[3] == 'call:len') and not (t[0] == 'eff' and t[2] in ('insert', 'insert_faststr', 'reserve', 'advance_mut')) and not (t[0] == 'set' and t[1] == 'zero_copy_len')]
-                sl = [t for t in sl if not (t[0] == 'set' and t[1] == 'zero_copy_len') and not (t[0] == 'cmp' and len(t) > 3 and t[3] == 'call:len')]
+                sw = [t for t in sw if not (t[0] == 'cmp' and len(t) > 3 and t[3] == 'call:len') and not (t[0] == 'eff' and t[2] in ('insert', 'insert_faststr', 'reserve', 'advance_mut')) and not (t[0] == 'set' and t[1] in tp.zc_counters(fam))]
+                sl = [t for t in sl if not (t[0] == 'set' and t[1] in tp.zc_counters(fam)) and not (t[0] == 'cmp' and len(t) > 3 and t[3] == 'call:len')]
             pl, pw = proj(sl), proj(sw)
             # double: 8 fixed bytes
             if x == 'double':
@@ -312,6 +312,32 @@ def compact_family(rep, rule, prog, cg):
             rep.ok(rule, key, '%s_len = %d = bytes written' % (x, want), l.loc())
         else:
             rep.bad(rule, key, l.loc() if l else '', 'compact %s_len = %s, write_%s writes %s, expected %d' % (x, lv, x, ww, want))
+
+
+def _whole_loop(b):
+    """the element closure is called inside a `for` loop over the collection whose only exit is the end of the iteration"""
+    succ = b.cfg[0]
+    for cs in b.calls():
+        if cs.name != 'next':
+            continue
+        if not any(cs.bb in b.reach_from(y) for y in succ[cs.bb]):
+            continue
+        loop = {x for x in b.reach_from(cs.bb) if cs.bb in b.reach_from(x)}
+        early = False
+        for x in loop:
+            if b.bbs[x]['cleanup']:
+                continue
+            for y in succ[x]:
+                if y in loop or b.bbs[y]['cleanup']:
+                    continue
+                t = b.bbs[x]['t']
+                e = b.expr_op(t['o']) if t['k'] == 'switch' else None
+                if not (e and e[0] == 'discr' and e[1][0] == 'call' and len(e[1]) > 3 and e[1][3] == cs.bb):
+                    early = True
+        calls_closure = any(c2.bb in loop and c2.name in ('call', 'call_mut', 'call_once') for c2 in b.calls())
+        if not early and calls_closure:
+            return True
+    return False
 
 
 def ext_helpers(rep, rule, prog, cg):
@@ -358,7 +384,7 @@ def ext_helpers(rep, rule, prog, cg):
             good = ps[:1] == [kind + '_begin_len'] and ps[-1:] == [kind + '_end_len'] and not branches
             # the element lengths are summed over an iterator of the whole collection
             its = [cs.name for cs in l.calls() if cs.name in ('iter', 'map', 'sum', 'into_iter', 'fold')]
-            if good and 'sum' in its and 'iter' in its:
+            if good and ('sum' in its and 'iter' in its or _whole_loop(l)):
                 rep.ok(rule, key, 'begin + sum over every element + end; no value-independent shortcut', l.loc())
             else:
                 rep.bad(rule, key, l.loc(), '%s must be begin_len + sum of the element closure over EVERY element + end_len with no branch (found protocol calls %s, iterator calls %s, branches %s): a shortcut computed from the first element mis-sizes variable-width encodings' % (n, ps, its, branches))
